@@ -1,28 +1,77 @@
 """Extra regenerated constants for C15: integer literals that rate.py keeps inline (not as module
-attributes), read off freshly constructed objects of the working tree."""
+attributes).  They are OBSERVED through public behaviour of freshly constructed objects wherever that is
+possible (window / scale of the estimator's RateCounter through add()/rate(), the clamp offset through
+update()), so that renaming a private attribute or helper does not break the regeneration; the three
+initial values that have no behavioural handle are read as attributes and reported as a regeneration
+error (a broken obligation, not a failing input) when they are gone."""
 from __future__ import annotations
+
+
+def _meter(est):
+    """the RateCounter the estimator measures the incoming bitrate with (by its public name, else by its class)"""
+    from aiortc.rate import RateCounter
+
+    c = getattr(est, "incoming_bitrate", None)
+    if isinstance(c, RateCounter):
+        return c
+    for v in vars(est).values():
+        if isinstance(v, RateCounter):
+            return v
+    raise ValueError("RemoteBitrateEstimator holds no RateCounter: the window / scale of its measurement cannot be observed")
+
+
+def _window_and_scale(c) -> tuple[int, int]:
+    # one sample of value 2 at t = 0:  rate(1) = scale·2 / 2 = scale;  the first `now` at which the sample has left the window is the window size
+    c.add(2, 0)
+    scale = c.rate(1)
+    for now in range(2, 100001):
+        if c.rate(now) is None:
+            return now, scale
+    raise ValueError("RateCounter window is longer than 100 s or rate() never becomes None")
+
+
+def _clamp_offset() -> int:
+    """With a measured throughput of 1 bit/s an initialised controller in INCREASE state climbs to int(1.5·1) + offset = 1 + offset
+    and stays there (1 rather than 0, so that the observation does not depend on how a measurement of exactly 0 is treated)."""
+    from aiortc.rate import AimdRateControl, BandwidthUsage
+
+    rc = AimdRateControl()
+    rc.update(BandwidthUsage.NORMAL, 1, 0)            # notes the time of the first measurement
+    v = rc.update(BandwidthUsage.NORMAL, 1, 3001)     # initialises current_bitrate with the measurement
+    now = 3001
+    for _ in range(100000):
+        now += 1000
+        v2 = rc.update(BandwidthUsage.NORMAL, 1, now)
+        if v is not None and v2 == v:
+            return v - 1
+        v = v2
+    raise ValueError("the estimate does not settle at a cap for a constant measured throughput")
+
+
+def _attr(obj, name):
+    if not hasattr(obj, name):
+        raise ValueError(f"{type(obj).__name__}.{name} is gone: the initial value it held cannot be regenerated")
+    return getattr(obj, name)
 
 
 def unit_ratelit() -> list[str]:
     from aiortc.rate import AimdRateControl, RemoteBitrateEstimator
 
-    est = RemoteBitrateEstimator()
+    window, scale = _window_and_scale(_meter(RemoteBitrateEstimator()))
     rc = AimdRateControl()
     vals = {
         # RemoteBitrateEstimator.__init__: RateCounter(1000, 8000)
-        "RATE_WINDOW_MS": est.incoming_bitrate._window_size,
-        "RATE_SCALE": est.incoming_bitrate._scale,
+        "RATE_WINDOW_MS": window,
+        "RATE_SCALE": scale,
         # AimdRateControl.feedback_interval()
         "RATE_FEEDBACK_INTERVAL_MS": rc.feedback_interval(),
         # AimdRateControl.__init__
-        "RATE_INITIAL_BITRATE": rc.current_bitrate,
-        "RATE_INITIAL_THROUGHPUT": rc.latest_estimated_throughput,
-        "RATE_RTT_MS": rc.rtt,
+        "RATE_INITIAL_BITRATE": _attr(rc, "current_bitrate"),
+        "RATE_INITIAL_THROUGHPUT": _attr(rc, "latest_estimated_throughput"),
+        "RATE_RTT_MS": _attr(rc, "rtt"),
+        # _clamp_bitrate: int(1.5 * estimated_throughput) + 10000
+        "RATE_CLAMP_OFFSET": _clamp_offset(),
     }
-    # _clamp_bitrate(new, 0) with current_bitrate = 0  ==  min(new, int(1.5*0) + offset)
-    rc2 = AimdRateControl()
-    rc2.current_bitrate = 0
-    vals["RATE_CLAMP_OFFSET"] = rc2._clamp_bitrate(10 ** 12, 0)
     out = ["-- aiortc.rate: inline integer literals, observed on fresh objects"]
     for k, v in vals.items():
         if isinstance(v, bool) or not isinstance(v, int) or v < 0:
